@@ -130,3 +130,11 @@ pub fn dasmtext(toks: &[&str]) -> String {
         Err(e) => format!("error {}",e)
     }
 }
+
+/// asmline id variant proc mx pc hextext : one source line assembled at the given address with the processor declared
+pub fn asmline(toks: &[&str]) -> String {
+    let variant = toks[2]; let proc = toks[3]; let mx = toks[4]; let pc = num(toks[5]) as usize;
+    let line = String::from_utf8_lossy(&unhex(toks[6])).to_string();
+    let src = [header(proc,variant,mx,pc),line,"\n".to_string()].concat();
+    match assemble(&src,variant,false) { Ok(b) => format!("ok:{}",tohex(&b)), Err(e) => format!("err {}",e.chars().take(60).collect::<String>()) }
+}
